@@ -42,6 +42,9 @@ def _is_name_expr(e) -> bool:
     return False
 
 
+_depth = [0]
+
+
 def _classify_part(e, org, at, closed_ok):
     """'C' const, 'D' digits, 'X' per-object fixed (self.name), 'K' closed literal alphabet, 'F' free string, '?' unknown."""
     if au.const_str(e) is not None:
@@ -64,6 +67,14 @@ def _classify_part(e, org, at, closed_ok):
         return "F"
     # a local bound to a name / loop element of names
     if isinstance(inner, ast.Name):
+        ds = list(org.ff.defs(inner.id, at))
+        if len(ds) == 1 and ds[0].kind == "assign" and ds[0].value is not None and ds[0].index in (None, ()) and _depth[0] < 4:
+            # exactly one plain definition: the part is what that expression is (not everything that flows into it)
+            _depth[0] += 1
+            try:
+                return _classify_part(ds[0].value, org, ds[0].node, closed_ok)
+            finally:
+                _depth[0] -= 1
         nodes = org.nodes(inner, at)
         name_nodes = [n for n in nodes if _is_name_expr(n)]
         if name_nodes and all(isinstance(n, ast.Subscript) and au.const_str(n.slice) == "var_name" for n in name_nodes):
